@@ -208,23 +208,6 @@ func genDirectiveTables(repo string) string {
 	for i, n := range enumNames {
 		idx[n] = i
 	}
-	// ss keyword strings
-	ssExpr, ok := findVar(files, "ss").(*ast.CompositeLit)
-	if !ok {
-		failf(nil, "directive.ss not found")
-	}
-	var ss []string
-	for _, e := range ssExpr.Elts {
-		bl, ok := e.(*ast.BasicLit)
-		if !ok {
-			failf(e, "directive.ss: non-literal element")
-		}
-		v, _ := strconv.Unquote(bl.Value)
-		ss = append(ss, v)
-	}
-	if len(ss) != len(enumNames) {
-		failf(ssExpr, "directive.ss has %d entries, Enumeration has %d", len(ss), len(enumNames))
-	}
 	caseSet := func(name string) []int {
 		fd := findFunc(files, "Enumeration", name)
 		if fd == nil || len(fd.Body.List) != 1 {
@@ -271,10 +254,10 @@ func genDirectiveTables(repo string) string {
 	// source gives them (switch, table literal, helper functions)
 	ev := evalDirectivePredicates(repo, len(enumNames))
 	root, meth := ev.root, ev.meth
-	for i, kw := range ev.str {
-		if kw != ss[i] {
-			failf(ssExpr, "Enumeration(%d).String() = %q but directive.ss[%d] = %q", i, kw, i, ss[i])
-		}
+	// the keyword of a kind is what its String() method returns (evaluated)
+	ss := ev.str
+	if len(ss) != len(enumNames) {
+		failf(nil, "%d keyword strings for %d Enumeration constants", len(ss), len(enumNames))
 	}
 
 	var rows []string
@@ -287,34 +270,44 @@ func genDirectiveTables(repo string) string {
 	// dispatch table of core.NewJApiCore
 	cfiles := parseDir(filepath.Join(repo, "core"))
 	var disp []string
-	nj := findFunc(cfiles, "", "NewJApiCore")
-	if nj == nil {
-		failf(nil, "core.NewJApiCore not found")
-	}
-	found := false
-	ast.Inspect(nj, func(n ast.Node) bool {
-		as, ok := n.(*ast.AssignStmt)
-		if !ok || len(as.Lhs) != 1 || src(as.Lhs[0]) != "core.directiveFunctions" {
-			return true
-		}
-		cl, ok := as.Rhs[0].(*ast.CompositeLit)
-		if !ok {
-			failf(as, "directiveFunctions: unexpected value")
-		}
-		found = true
-		for _, e := range cl.Elts {
-			kv := e.(*ast.KeyValueExpr)
-			k := strings.TrimPrefix(src(kv.Key), "directive.")
-			i, ok := idx[k]
-			if !ok {
-				failf(kv, "unknown Enumeration %s", k)
+	// the handler table: the one composite literal of package core of type
+	// map[directive.Enumeration]func(*directive.Directive) *jerr.JApiError, wherever it is built
+	found := 0
+	for _, f := range cfiles {
+		ast.Inspect(f, func(n ast.Node) bool {
+			cl, ok := n.(*ast.CompositeLit)
+			if !ok || cl.Type == nil {
+				return true
 			}
-			disp = append(disp, fmt.Sprintf("(%d, %s)", i, coqString(strings.TrimPrefix(src(kv.Value), "core."))))
-		}
-		return false
-	})
-	if !found {
-		failf(nj, "directiveFunctions assignment not found")
+			mt, ok := cl.Type.(*ast.MapType)
+			if !ok || src(mt.Key) != "directive.Enumeration" {
+				return true
+			}
+			if _, isFunc := mt.Value.(*ast.FuncType); !isFunc {
+				return true
+			}
+			found++
+			for _, e := range cl.Elts {
+				kv, ok := e.(*ast.KeyValueExpr)
+				if !ok {
+					failf(e, "handler table: unexpected element")
+				}
+				k := strings.TrimPrefix(src(kv.Key), "directive.")
+				i, ok := idx[k]
+				if !ok {
+					failf(kv, "unknown Enumeration %s", k)
+				}
+				sel, ok := kv.Value.(*ast.SelectorExpr)
+				if !ok {
+					failf(kv, "handler table: the handler of %s is not a method value", k)
+				}
+				disp = append(disp, fmt.Sprintf("(%d, %s)", i, coqString(sel.Sel.Name)))
+			}
+			return false
+		})
+	}
+	if found != 1 {
+		failf(nil, "expected exactly one handler table (map[directive.Enumeration]func...) in package core, found %d", found)
 	}
 
 	var b strings.Builder
@@ -665,6 +658,49 @@ func genInventory(repo string) string {
 		}
 		// package-level variables
 		pkgVars := map[types.Object]string{}
+		pkgVarType := map[string]string{}
+		shortType := func(t types.Type) string {
+			return types.TypeString(t, func(p *types.Package) string { return p.Name() })
+		}
+		// functions of the package that are only ever used as the argument of a sync.Once's Do: their
+		// bodies run inside that Do
+		onceFuncs := map[string]bool{}
+		{
+			asDoArg := map[types.Object]int{}
+			for _, n := range names {
+				ast.Inspect(files[n], func(m ast.Node) bool {
+					call, ok := m.(*ast.CallExpr)
+					if !ok || len(call.Args) != 1 {
+						return true
+					}
+					sel, ok := call.Fun.(*ast.SelectorExpr)
+					if !ok || sel.Sel.Name != "Do" {
+						return true
+					}
+					tv, ok := info.Types[sel.X]
+					if !ok || !strings.HasSuffix(tv.Type.String(), "sync.Once") {
+						return true
+					}
+					if id, ok := call.Args[0].(*ast.Ident); ok {
+						if fo, isFunc := info.Uses[id].(*types.Func); isFunc {
+							asDoArg[fo]++
+						}
+					}
+					return true
+				})
+			}
+			uses := map[types.Object]int{}
+			for _, o := range info.Uses {
+				if _, isFunc := o.(*types.Func); isFunc {
+					uses[o]++
+				}
+			}
+			for o, k := range asDoArg {
+				if uses[o] == k {
+					onceFuncs[o.Name()] = true
+				}
+			}
+		}
 		for _, n := range names {
 			for _, d := range files[n].Decls {
 				gd, ok := d.(*ast.GenDecl)
@@ -678,7 +714,8 @@ func genInventory(repo string) string {
 						}
 						if obj := info.Defs[id]; obj != nil {
 							pkgVars[obj] = id.Name
-							items = append(items, invItem{"pkgvar", pd, "", id.Name + " : " + obj.Type().String()})
+							pkgVarType[id.Name] = shortType(obj.Type())
+							items = append(items, invItem{"pkgvar", pd, "", id.Name + " : " + shortType(obj.Type())})
 						}
 					}
 				}
@@ -696,6 +733,9 @@ func genInventory(repo string) string {
 				}
 				twoValue := map[*ast.TypeAssertExpr]bool{}
 				inOnce := 0
+				if fd.Recv == nil && onceFuncs[fd.Name.Name] {
+					inOnce = 1
+				}
 				var visit func(n ast.Node) bool
 				visit = func(n ast.Node) bool {
 					switch x := n.(type) {
@@ -728,7 +768,7 @@ func genInventory(repo string) string {
 									if inOnce > 0 {
 										where = "inside-Once.Do"
 									}
-									items = append(items, invItem{"pkgvar-write", pd, fn, name + " " + where})
+									items = append(items, invItem{"pkgvar-write", pd, fn, where + " " + name + " : " + pkgVarType[name]})
 								}
 							}
 						}
@@ -828,7 +868,7 @@ func genInventory(repo string) string {
 	b.WriteString("].\n\n")
 	// normalised keys: what a site IS, not where exactly it stands - an unchecked assertion is keyed by
 	// package and asserted type, a panic / recover / sync.Once by package, an external call by package
-	// and callee, a package-level variable by its name; a map iteration stays tied to its function
+	// and callee, a package-level variable (and a write to one) by its type; a map iteration stays tied to its function
 	// (its classification in Spec/MapRanges.v is per function)
 	b.WriteString("(* (kind, package, normalised detail) *)\nDefinition inventory_keys : list (string * string * string) := [\n")
 	for i, it := range items {
@@ -849,6 +889,21 @@ func genInventory(repo string) string {
 			key = ""
 		case "maprange":
 			key = it.fn
+		case "pkgvar":
+			// by type, not by name: a renamed variable is the same variable
+			if j := strings.Index(d, " : "); j >= 0 {
+				key = d[j+3:]
+			} else {
+				key = d
+			}
+		case "pkgvar-write":
+			// "<where> <name> : <type>" -> "<where> <type>"
+			key = d
+			if j := strings.Index(d, " "); j >= 0 {
+				if k := strings.Index(d, " : "); k >= 0 {
+					key = d[:j] + " " + d[k+3:]
+				}
+			}
 		default:
 			key = d
 		}
